@@ -80,6 +80,7 @@ import JdProofs.DiffEmptySet
 import JdProofs.MergePrecision
 import JdProofs.CliExitCodes
 import JdProofs.OptSites
+import JdProps.C01Precision
 
 namespace Jd.Props.C05
 open Jd Jd.Spec
